@@ -240,6 +240,24 @@ def scripted_histories(U):
         ops += [{'k': 'evaluate', 'est': 1, 'T': t, 'q': q, 'el': None} for t in range(len(TEMPS)) for q in range(len(QTYS))]
         ops += [{'k': 'evaluate', 'est': 0, 'T': t, 'q': q, 'el': None} for t in range(len(TEMPS)) for q in range(len(QTYS))]
         out.append(ops)
+    # two merges into one target, the second with overwrite: a library that only ever was a SOURCE must keep its data
+    ev = lambda e: [{'k': 'evaluate', 'est': e, 'T': t, 'q': q, 'el': None} for t in range(len(TEMPS)) for q in (0, 1, 3)]
+    ops = [{'k': 'load', 'L': U.lib_ids['XieGA2022'], 'byPath': False}, {'k': 'load', 'L': U.lib_ids['SalciccioliGA2012'], 'byPath': False},
+           {'k': 'load', 'L': U.lib_ids['GRWSurface2018'], 'byPath': False},
+           {'k': 'decompose', 'lib': 1, 'm': U.mol('CC[Pt]')}, {'k': 'estimate', 'lib': 1, 'from': 3, 'forMol': U.mol('CC[Pt]')}]
+    ops += ev(0)
+    ops += [{'k': 'merge', 'dst': 0, 'src': 1, 'ow': False}, {'k': 'merge', 'dst': 0, 'src': 2, 'ow': True},
+            {'k': 'decompose', 'lib': 1, 'm': U.mol('CC[Pt]')}, {'k': 'estimate', 'lib': 1, 'from': len(ops) + 2, 'forMol': U.mol('CC[Pt]')}]
+    ops += ev(1) + ev(0)
+    out.append(ops)
+    # an estimate that fails for missing data (the molecule decomposes, a group has no data) must leave the library as it was
+    for lib, bad, good in (('BensonGA', 'C=C=O', 'CC'), ('BensonGA', 'C=C=C', 'CCO')):
+        ops = [{'k': 'load', 'L': U.lib_ids[lib], 'byPath': False}, {'k': 'load', 'L': U.lib_ids['PPY'], 'byPath': False},
+               {'k': 'decompose', 'lib': 0, 'm': U.mol(bad)}, {'k': 'estimate', 'lib': 0, 'from': 2, 'forMol': U.mol(bad)},
+               {'k': 'decompose', 'lib': 0, 'm': U.mol(good)}, {'k': 'estimate', 'lib': 0, 'from': 4, 'forMol': U.mol(good)}]
+        ops += ev(1)
+        ops += [{'k': 'merge', 'dst': 1, 'src': 0, 'ow': False}]
+        out.append(ops)
     return out
 
 
@@ -757,7 +775,7 @@ def run(ctx):
         ctx.count('corpus')
         replay(ctx, rec, fresh=fresh, U=U, f1_fixed=f1_fixed)
     object_reuse_checks(ctx)
-    n_hist = ctx.n(int(os.environ.get('C15_N', 24)), 400)
+    n_hist = ctx.n(int(os.environ.get('C15_N', 30)), 400)
     block = 40
     # per run (seed) a sub-universe, so that fresh results are shared between histories; the thorough tier uses everything
     if ctx.thorough():
